@@ -27,12 +27,15 @@ import (
 	"github.com/ozontech/seq-db/frac/processor"
 	"github.com/ozontech/seq-db/fracmanager"
 	"github.com/ozontech/seq-db/parser"
+	pb "github.com/ozontech/seq-db/pkg/storeapi"
 	"github.com/ozontech/seq-db/seq"
+	"github.com/ozontech/seq-db/storeapi"
 	"github.com/ozontech/seq-db/zzverif/refdb"
 	"github.com/ozontech/seq-db/zzverif/vcrash"
 	"github.com/ozontech/seq-db/zzverif/vfrac"
 	"github.com/ozontech/seq-db/zzverif/vlib"
 	"github.com/ozontech/seq-db/zzverif/vos"
+	"google.golang.org/grpc/metadata"
 )
 
 type c19MP struct{}
@@ -77,7 +80,7 @@ type c19Job struct {
 	Dir     string     `json:"dir"`
 	Corpus  *c19Corpus `json:"corpus,omitempty"` // non-nil: prepare the data first (fresh dir)
 	Req     c19Req     `json:"req"`
-	Start   bool       `json:"start"`  // start the async search (else: only resume/poll)
+	Start   bool       `json:"start"` // start the async search (else: only resume/poll)
 	NoAsync bool       `json:"no_async,omitempty"`
 	PollMs  int        `json:"poll_ms,omitempty"`
 	// Extra: before the async searcher is (re)started, the fraction that was active is sealed and two new
@@ -264,6 +267,7 @@ type c19Case struct {
 	K      int       `json:"k"` // -1: no crash (plain async vs sync)
 	Torn   int       `json:"torn"`
 	Extra  bool      `json:"extra,omitempty"` // a new fraction appears between the crash and the restart
+	API    bool      `json:"api,omitempty"`   // the store API pass (re-run as a whole)
 }
 
 type c19Explorer struct {
@@ -396,6 +400,86 @@ func (e *c19Explorer) run(corp c19Corpus, base vcrash.FS, req c19Req, only *c19C
 	})
 }
 
+// c19StoreAPI — the store API layer (GrpcV1.StartAsyncSearch / FetchAsyncSearchResult) for every setting of
+// --max-search-docs in {default, 0 (= unlimited elsewhere), 2}: a finished asynchronous search lists the same
+// IDs as the synchronous Search of the same store.
+func c19StoreAPI(r *vlib.Run) {
+	dir := vfrac.MkTmp("c19api")
+	defer os.RemoveAll(dir)
+	vos.SetRoot("")
+	st, err := storeapi.NewStore(context.Background(), storeapi.StoreConfig{
+		FracManager: fracmanager.Config{DataDir: dir, FracSize: 100 * consts.MB, TotalSize: 1000 * consts.MB, CacheSize: 10 * consts.MB, MaintenanceDelay: time.Hour},
+		API:         storeapi.APIConfig{StoreMode: storeapi.StoreModeCold, Search: storeapi.SearchConfig{WorkersCount: 2, FractionsPerIteration: 2}},
+	}, c19MP{})
+	if err != nil {
+		panic(err)
+	}
+	defer st.Stop()
+	client := storeapi.NewClient(st)
+	for fi, fr := range [][]int{{0, 1, 2}, {3, 4}} {
+		var docs []refdb.Doc
+		for _, i := range fr {
+			docs = append(docs, c19Doc(i))
+		}
+		d, m := vfrac.BuildBulk(docs, 1)
+		if _, err := client.Bulk(context.Background(), &pb.BulkRequest{Count: int64(len(docs)), Docs: d, Metas: m}); err != nil {
+			panic(err)
+		}
+		st.WaitIdle()
+		if fi == 0 {
+			st.SealAll()
+		}
+	}
+	old := conf.MaxRequestedDocuments
+	defer func() { conf.MaxRequestedDocuments = old }()
+	ctx := metadata.NewIncomingContext(context.Background(), metadata.Pairs("use-seq-ql", "true"))
+	for n, maxDocs := range []int{old, 0, 2} {
+		conf.MaxRequestedDocuments = maxDocs
+		for _, q := range []string{"*", `k:"a*"`} {
+			r.Add("evaluations", 1)
+			r.Add("store_api_searches", 1)
+			sig := fmt.Sprintf("store-api max-search-docs=%d q=%s", maxDocs, q)
+			c := c19Case{API: true}
+			sync, err := client.Search(ctx, &pb.SearchRequest{Query: q, From: 0, To: int64(vfrac.MaxMID), Size: 100, Order: pb.Order_ORDER_DESC})
+			if err != nil {
+				r.Violation(sig+": sync search error", c, err.Error())
+				continue
+			}
+			id := fmt.Sprintf("00000000-0000-4000-8000-00000000%02d%02d", n, len(q))
+			if _, err := client.StartAsyncSearch(ctx, &pb.StartAsyncSearchRequest{SearchId: id, Query: q, From: 0, To: int64(vfrac.MaxMID), Order: pb.Order_ORDER_DESC}); err != nil {
+				r.Violation(sig+": start error", c, err.Error())
+				continue
+			}
+			var got *pb.FetchAsyncSearchResultResponse
+			deadline := time.Now().Add(30 * time.Second)
+			for {
+				got, err = client.FetchAsyncSearchResult(ctx, &pb.FetchAsyncSearchResultRequest{SearchId: id, Size: 100})
+				if err != nil || got.Done || time.Now().After(deadline) {
+					break
+				}
+				time.Sleep(2 * time.Millisecond)
+			}
+			switch {
+			case err != nil:
+				r.Violation(sig+": fetch error", c, err.Error())
+			case !got.Done:
+				r.Cap("an async search through the store API did not report done within 30 s")
+			default:
+				ids := func(resp *pb.SearchResponse) string {
+					var b strings.Builder
+					for _, x := range resp.IdSources {
+						fmt.Fprintf(&b, "%d.%d ", x.Id.Mid, x.Id.Rid)
+					}
+					return b.String()
+				}
+				if a, s := ids(got.Response), ids(sync); a != s {
+					r.Violation(sig+": finished async search lists other IDs than the synchronous search", c, fmt.Sprintf("async [%s]\nsync  [%s]", a, s))
+				}
+			}
+		}
+	}
+}
+
 func TestVerifC19(t *testing.T) {
 	r := vlib.NewRun("C19")
 	e := &c19Explorer{r: r, pool: vlib.NewPool("c19", vlib.Workers())}
@@ -417,6 +501,11 @@ func TestVerifC19(t *testing.T) {
 	}
 	var rc c19Case
 	if r.LoadReplay(&rc) {
+		if rc.API {
+			c19StoreAPI(r)
+			r.Finish(t, "fault_enumeration", "replay", nil, nil)
+			return
+		}
 		if len(rc.Corpus.Fracs) == 0 { // a replay artefact of the proxy add-on: nothing to do here
 			r.Finish(t, "fault_enumeration", "replay", nil, nil)
 			return
@@ -462,6 +551,7 @@ func TestVerifC19(t *testing.T) {
 			jobs = append(jobs, job{c, base, rq})
 		}
 	}
+	c19StoreAPI(r)
 	for _, rj := range rawJobs {
 		jobs = append(jobs, job{rj.c, prepare(rj.c), rj.req})
 	}
